@@ -417,7 +417,7 @@ fn pubcomp_step(n: usize) {
 // ------------------------------------------------------------------------------------------
 // outgoing publish
 // ------------------------------------------------------------------------------------------
-// @steps name=v4_outgoing_publish props=C02,C07,C10,C18 fn=MqttState::outgoing_publish call=outgoing_publish_step ns=quick:1,2;thorough:1,2,3,4
+// @steps name=v4_outgoing_publish props=C02,C07,C10,C18 fn=MqttState::outgoing_publish call=outgoing_publish_step ns=quick:1,2;thorough:1,2,3
 fn outgoing_publish_step(n: usize) {
     let mut st = any_state(n, 0);
     let g = ghost(&st);
